@@ -2320,11 +2320,19 @@ def contains(ctx, container, x):
             return x.sym_in_str(ctx, container)
         raise Undecided("symbolic substring test")
     if isinstance(container, range):
+        if type(x).__name__ == "LB":
+            x = simplify_native(x.as_int())         # exact low-bits value as an integer term (inexact: UNDECIDED)
         if is_sym(x):
+            if z3.is_bool(x) or not z3.is_int(x):
+                raise Undecided("membership of a non-integer term in a range")
             if container.step == 1:
                 return land(x >= container.start, x < container.stop)
             raise Undecided("membership in stepped range")
+        if contains_sym(x) or isinstance(x, L.SymVal):
+            raise Undecided(f"membership {type(x).__name__} in range")
         return x in container
+    if isinstance(container, L.SymVal) or isinstance(x, L.SymVal):
+        raise Undecided(f"membership {type(x).__name__} in {type(container).__name__}")
     if contains_sym(container) or contains_sym(x):
         raise Undecided(f"membership {type(x).__name__} in {type(container).__name__}")
     return x in container
